@@ -83,7 +83,7 @@ def run(ctx):
                 ctx.sample({"sink": rules.where(fn, bb), "size": show(pe)[:120], "verdict": "checked" if ok else "UNBOUNDED"})
                 continue
             ctx.ob(key, "inconclusive", "allocation size of unmodelled provenance: %s" % show(pe)[:120], rules.where(fn, bb), fn=fn)
-    ctx.floor("taint:sinks", n, 6, "allocation sinks in the decode path")
+    ctx.floor("taint:sinks", n, 3, "allocation sinks in the decode path")
 
     # ERRFLOW
     m = 0
